@@ -289,11 +289,28 @@ def scope_lookup_shape(ctx, rule, fn, inner, crate='pavexc'):
     somes = [bb for bb, j, st in b.all_assigns() if st['lhs'] == {'l': 0} and st['rv']['k'] == 'agg' and st['rv'].get('var') == 'Some']
     other_results = [bb for bb, t in b.calls() if t.get('dest') == {'l': 0} and not (popb and b.dominates(popb[0], bb))]
     in_walk = bool(popb) and all(b.dominates(popb[0], sb) for sb in somes) and not other_results
-    ok = bool(look) and bool(ext) and not chi and from_parents and order and pops == ['pop_front', 'push_back'] and miss_ok and in_walk
+    # the queue starts as [the requesting scope]: `new()` + `push_back(scope)` before the loop, or `VecDeque::from([scope])` / `from_iter`
+    SCOPE_ = A + 'user_components::scope_graph::ScopeId'
+    params_ = {i for i in range(1, b.raw['argc'] + 1) if b.locals[i] == SCOPE_}
+    seeds_ = []
+    for bb, t in b.calls():
+        c_ = callee(t) or ''
+        d_ = t.get('dest')
+        if 'VecDeque' in (t['aty'][0] if t['aty'] else '') and c_.split('::')[-1] == 'push_back' and bb not in b.reachable(b.succ(bb)):
+            q = op_place(t['args'][1])
+        elif c_.split('::')[-1] in ('from', 'from_iter') and d_ is not None and not d_.get('p') and 'VecDeque<' in b.locals[d_['l']] and bb not in b.reachable(b.succ(bb)):
+            q = op_place(t['args'][0])
+        else:
+            continue
+        _, locs_ = backward_slice(b, q['l'], defs) if q else ([], set())
+        seeds_.append(bool(locs_ & params_))
+    seeded = bool(seeds_) and all(seeds_)
+    fifo = 'pop_front' in pops and set(pops) <= {'pop_front', 'push_back'}
+    ok = bool(look) and bool(ext) and not chi and from_parents and order and fifo and seeded and miss_ok and in_walk
     ctx.ob(rule, 'scope-walk|%s' % (fn.split('::')[-2] + '::' + fn.split('::')[-1]), ok, b.loc(look[0][0]) if look else b.loc(),
-           'current scope first: %s; parents only: %s (children consulted: %s); FIFO: %s; a miss in a scope always continues to its parents: %s; '
+           'current scope first: %s (the queue starts as [the requesting scope]: %s); parents only: %s (children consulted: %s); FIFO: %s; a miss in a scope always continues to its parents: %s; '
            'every result is produced inside the walk (no lookup across all ancestors before it): %s'
-           % (order, from_parents, bool(chi), pops, miss_ok, in_walk))
+           % (order, seeded, from_parents, bool(chi), pops, miss_ok, in_walk))
 
 
 def concrete_before_templated(ctx, rule, fn, getter, crate='pavexc'):
